@@ -127,6 +127,8 @@ class BuiltinsMixin:
 
     def model_class_int(self, cls, args, kwargs, fr, node):
         v = args[0]
+        if isinstance(v, SV) and isinstance(v.ty, TOpt):
+            v = self.coerce(v, v.ty.elem)
         if isinstance(v, SV):
             if isinstance(v.ty, TInt):
                 return v
@@ -170,6 +172,8 @@ class BuiltinsMixin:
 
     def model_class_float(self, cls, args, kwargs, fr, node):
         v = args[0]
+        if isinstance(v, SV) and isinstance(v.ty, TOpt):
+            v = self.coerce(v, v.ty.elem)
         if isinstance(v, SV):
             if isinstance(v.ty, TReal):
                 return v
@@ -489,6 +493,18 @@ class BuiltinsMixin:
 
     def bi_hash(self, args, kwargs, fr, node):
         raise Untranslatable('hash')
+
+    def bi_isinf(self, args, kwargs, fr, node):
+        v = args[0]
+        if isinstance(v, SV) and isinstance(v.ty, (TReal, TInt)):
+            return False       # A-REAL: a symbolic number is a finite mathematical real
+        return self.native_call(math.isinf, args, kwargs, fr, node)
+
+    def bi_isnan(self, args, kwargs, fr, node):
+        v = args[0]
+        if isinstance(v, SV) and isinstance(v.ty, (TReal, TInt)):
+            return False
+        return self.native_call(math.isnan, args, kwargs, fr, node)
 
     def bi_sqrt(self, args, kwargs, fr, node):
         return self.math_fn('sqrt', args, fr, node)
@@ -859,6 +875,10 @@ class BuiltinsMixin:
                     return None
             raise Untranslatable('deep_iterable member validator on symbolic sequence')
         raise Untranslatable('deep_iterable')
+
+    def model_obj__VArgsWrapper(self, v, args, kwargs, fr, node):
+        # calling a v_args-decorated transformer callback directly runs its base function
+        return self.call_value(v.base_func, args, kwargs, fr, node)
 
     def model_obj_Attribute(self, v, args, kwargs, fr, node):
         raise Untranslatable('Attribute call')
